@@ -26,16 +26,18 @@ from vf.refmodel import HEX_SIDES
 warnings.simplefilter("ignore")
 
 import classy_blocks as cb  # noqa: E402
+from classy_blocks.construct.shape import Shape  # noqa: E402
 
 RULE = (
     "A history = pool of <= 4 operations (Lofts cut from a jittered node lattice, random corner numbering, patches, "
-    "cell zone, optional arc edge / projected side / projected corner, count chops consistent per edge family) and a "
+    "cell zone, optional arc edge / projected side / projected corner, count chops consistent per edge family; one "
+    "mesh.add() may bring two of them wrapped in a user-defined Shape) and a "
     "program of <= 12 steps over {add, delete, assemble, move, backport, clear, modify_patch, set_default_patch, "
     "merge_patches, write} followed by a final write; steps are drawn by simulating the life cycle so most are "
     "enabled, the rest are skipped and counted. Non-trivial: a compared write (or a backport check) is preceded by a "
     "re-assembly (clear->assemble or backport), a delete of an added operation, or an earlier write. Distinct = "
-    "sequence of executed steps with their resolved discrete arguments (which operation / corner / patch / kind), "
-    "ignoring geometry and displacements."
+    "(lattice dimensions, specs of the operations that were added, sequence of executed steps with their resolved "
+    "discrete arguments: which operation / corner / patch / kind), ignoring widths, jitter and displacements."
 )
 ASSUMPTIONS = [
     "API preconditions taken from the callers in examples/: add / delete / merge_patches only while the mesh is not "
@@ -79,7 +81,9 @@ def history(draw, chops: str = "all", modify: bool = False, max_steps: int = 12)
     ncell = dims[0] * dims[1] * dims[2]
     widths = [[10.0 ** draw(st.floats(-0.5, 0.5)) for _ in range(dims[a])] for a in range(3)]
     nn = (dims[0] + 1) * (dims[1] + 1) * (dims[2] + 1)
-    jitter = [draw(st.floats(-1.0, 1.0)) for _ in range(3 * nn)] if draw(st.booleans()) else []
+    # few drawn floats (5, reused with a stride) so that Hypothesis spends its mutations on the program
+    base = [draw(st.floats(-1.0, 1.0)) for _ in range(5)] if draw(st.booleans()) else []
+    jitter = [base[(3 * j) % 5] * (1.0 if j % 2 else -0.5) for j in range(3 * nn)] if base else []
     k = draw(st.integers(2, min(4, ncell)))
     cells = list(draw(st.permutations(list(range(ncell))))[:k])
     rots = [draw(st.integers(0, 23)) for _ in cells]
@@ -126,14 +130,18 @@ def history(draw, chops: str = "all", modify: bool = False, max_steps: int = 12)
     remaining = k
     alive = 0
     first_adds = draw(st.integers(2, k))
-    for _ in range(first_adds):
-        program.append(["add", 0])
-        remaining -= 1
-        alive += 1
+    group = st.sampled_from([1, 1, 2])  # operations added by one mesh.add(): 2 = wrapped in a Shape
+    while alive < first_adds:
+        n = min(draw(group), first_adds - alive)
+        program.append(["add", 0, n])
+        remaining -= n
+        alive += n
     nsteps = draw(st.integers(1, max_steps - first_adds))
     small = st.integers(0, 5)
     deletes = 0
-    for _ in range(nsteps):
+    # Hypothesis favours the first element of sampled_from; rotate the menu so that this is not always 'assemble'
+    turn = draw(st.integers(0, 23))
+    for step_no in range(nsteps):
         if assembled:
             kinds = ["move"] * 3 + ["backport"] * 3 + ["clear"] * 3 + ["write"] * 2 + ["set_default_patch"]
         else:
@@ -143,12 +151,14 @@ def history(draw, chops: str = "all", modify: bool = False, max_steps: int = 12)
             if alive >= 2 and deletes < 2:
                 kinds += ["delete"] * 3
         if modify:
-            kinds += ["modify_patch"] * 6
-        kind = draw(st.sampled_from(kinds))
+            kinds += ["modify_patch"] * 4
+        r = (turn + 5 * step_no) % len(kinds)
+        kind = draw(st.sampled_from(kinds[r:] + kinds[:r]))
         if kind == "add":
-            program.append(["add", draw(small)])
-            remaining -= 1
-            alive += 1
+            n = min(draw(group), remaining)
+            program.append(["add", draw(small), n])
+            remaining -= n
+            alive += n
         elif kind == "delete":
             program.append(["delete", draw(small)])
             alive -= 1
@@ -185,6 +195,21 @@ def history(draw, chops: str = "all", modify: bool = False, max_steps: int = 12)
 # script-level model
 
 
+class Bundle(Shape):
+    """a user-defined Shape: several operations added to the mesh by one mesh.add()"""
+
+    def __init__(self, operations) -> None:
+        self._operations = list(operations)
+
+    @property
+    def operations(self):
+        return self._operations
+
+    @property
+    def grid(self):
+        return [self._operations]
+
+
 class Model:
     """What a script that builds the current model from scratch would contain."""
 
@@ -201,6 +226,7 @@ class Model:
         self.pos = [p.copy() for p in self.orig]  # committed corner positions (what the operations hold)
         self.arc_points = [self._arc_point(i) for i in range(len(self.pool))]
         self.added: List[int] = []  # pool indices in the order they were added
+        self.bundles: List[List[int]] = []  # the same, grouped by mesh.add() call (>= 2: one Shape holding them)
         self.deleted: set = set()
         self.assembled = False
         self.pending: Dict[Tuple[int, int], np.ndarray] = {}  # (pool index, corner) -> moved, not back-ported
@@ -277,8 +303,12 @@ class Model:
         """single assembly of the script model"""
         mesh = self.new_mesh()
         alive = self.alive
-        for i in alive:
-            mesh.add(self.make_op(i))
+        for bundle in self.bundles:
+            members = [self.make_op(i) for i in bundle if i in alive]
+            if len(bundle) == 1 and members:
+                mesh.add(members[0])
+            elif members:
+                mesh.add(Bundle(members))
         for master, slave in self.merged:
             mesh.merge_patches(master, slave)
         if self.default is not None:
@@ -373,6 +403,13 @@ class Run:
     def fail(self, kind: str, msg: str, **extra):
         raise Violation(kind, msg, **self.facts(**extra)) from None
 
+    def lib(self, what: str, fn, *args):
+        """a library call that must succeed in this state"""
+        try:
+            return fn(*args)
+        except Exception as ex:  # noqa: BLE001
+            self.fail(f"{what}-failed", f"{what} raised {type(ex).__name__}: {ex}", error=type(ex).__name__)
+
     def skip(self, name: str, why: str) -> None:
         self.ctx.label(f"skipped:{name}:{why}")
 
@@ -385,7 +422,7 @@ class Run:
             self.executed.append(name)
             self.trace.append([name, *self.resolved])
 
-    def do_add(self, k: int) -> bool:
+    def do_add(self, k: int, n: int = 1) -> bool:
         m = self.m
         rest = [i for i in range(len(m.pool)) if i not in m.added]
         if m.assembled:
@@ -394,11 +431,17 @@ class Run:
         if not rest:
             self.skip("add", "pool-empty")
             return False
-        i = rest[k % len(rest)]
-        self.resolved = [i]
-        self.ops[i] = m.make_op(i)
-        self.mesh.add(self.ops[i])
-        m.added.append(i)
+        start = k % len(rest)
+        bundle = (rest[start:] + rest[:start])[:n]
+        self.resolved = list(bundle)
+        for i in bundle:
+            self.ops[i] = m.make_op(i)
+        entity = self.ops[bundle[0]] if len(bundle) == 1 else Bundle([self.ops[i] for i in bundle])
+        self.lib("add", self.mesh.add, entity)
+        m.added.extend(bundle)
+        m.bundles.append(bundle)
+        if len(bundle) > 1:
+            self.features.add("added-shape")
         return True
 
     def do_delete(self, k: int) -> bool:
@@ -412,7 +455,7 @@ class Run:
             return False
         i = alive[k % len(alive)]
         self.resolved = [i]
-        self.mesh.delete(self.ops[i])
+        self.lib("delete", self.mesh.delete, self.ops[i])
         m.deleted.add(i)
         self.features.add("deleted")
         self.features.add("deleted-first" if i == m.added[0] else "deleted-later")
@@ -426,10 +469,7 @@ class Run:
         if not m.alive:
             self.skip("assemble", "empty")
             return False
-        try:
-            self.mesh.assemble()
-        except Exception as ex:  # noqa: BLE001
-            self.fail("assemble-failed", f"assemble raised {type(ex).__name__}: {ex}", error=type(ex).__name__)
+        self.lib("assemble", self.mesh.assemble)
         self._assembled_now()
         return True
 
@@ -445,7 +485,7 @@ class Run:
         if not m.assembled:
             self.skip("clear", "not-assembled")
             return False
-        self.mesh.clear()
+        self.lib("clear", self.mesh.clear)
         m.assembled = False
         if m.pending:
             self.features.add("moves-dropped-by-clear")
@@ -477,7 +517,7 @@ class Run:
                 for c, v in enumerate(block.vertices):
                     if v is vertex:
                         m.pending[(alive[bi], c)] = target
-            vertex.move_to(target)
+            self.lib("move_to", vertex.move_to, target)
         self.features.add("moved")
         return True
 
@@ -492,10 +532,7 @@ class Run:
             self.skip("backport", "not-assembled")
             return False
         moved = bool(m.pending)
-        try:
-            self.mesh.backport()
-        except Exception as ex:  # noqa: BLE001
-            self.fail("backport-failed", f"backport raised {type(ex).__name__}: {ex}", error=type(ex).__name__)
+        self.lib("backport", self.mesh.backport)
         for (i, corner), target in m.pending.items():
             m.pos[i][corner] = target
         m.pending.clear()
@@ -539,7 +576,7 @@ class Run:
         name = names[k % len(names)]
         self.resolved = [name, kind, settings]
         sett = SETTINGS[settings]
-        self.mesh.modify_patch(name, KINDS[kind], None if sett is None else list(sett))
+        self.lib("modify_patch", self.mesh.modify_patch, name, KINDS[kind], None if sett is None else list(sett))
         old = m.mods.get(name, ["patch", []])
         m.mods[name] = [KINDS[kind], old[1] if sett is None else list(sett)]
         old = self.since.get(name, ["patch", []])
@@ -549,7 +586,7 @@ class Run:
 
     def do_set_default_patch(self, k: int) -> bool:
         self.resolved = [k]
-        self.mesh.set_default_patch(*DEFAULTS[k])
+        self.lib("set_default_patch", self.mesh.set_default_patch, *DEFAULTS[k])
         self.m.default = list(DEFAULTS[k])
         self.features.add("default-set")
         return True
@@ -569,7 +606,7 @@ class Run:
             self.skip("merge_patches", "same-or-used")
             return False
         self.resolved = [master, slave]
-        self.mesh.merge_patches(master, slave)
+        self.lib("merge_patches", self.mesh.merge_patches, master, slave)
         m.merged.append([master, slave])
         self.features.add("merged")
         return True
@@ -732,7 +769,7 @@ def check_history(case, ctx: Ctx) -> None:
         run.step(step)
     if run.lost_mod is not None:
         raise run.lost_mod
-    ctx.key = run.trace
+    ctx.key = [case["dims"], [case["pool"][i] for i in run.m.added], run.trace]
     ctx.nt(run.nontrivial and run.judged > 0)
     ctx.label(*("did:" + f for f in sorted(run.features)))
     ctx.label(f"judged={min(run.judged, 4)}")
@@ -750,7 +787,8 @@ CELLS = [
          "every operation chopped on every axis; no modify_patch; text vs fresh build at every write, point arrays after "
          "backport, second write"),
     Cell("C12/history/propagated", history("sparse"), check_history, 500, 15000,
-         "a third of the block directions get their count from neighbours; writes the fresh build cannot do are counted"),
+         "about half of the block directions whose edge family is chopped on an earlier operation get their count from "
+         "neighbours; writes that a fresh build cannot do either (family left without a chop after a delete) are counted"),
     Cell("C12/history/patches", history("all", modify=True), check_history, 600, 18000,
          "as chopped, plus modify_patch steps (types and settings changed through the mesh must survive clear/backport)"),
 ]
